@@ -3,6 +3,7 @@
 //! real serde-saphyr entry points and writes records (NDJSON) for the TLA+ trace validators.
 mod model;
 mod docgen;
+mod c01;
 mod c02;
 mod c03;
 mod c07;
@@ -66,6 +67,8 @@ fn main() {
     // Panics inside the code under test are data; keep the default hook quiet.
     std::panic::set_hook(Box::new(|_| {}));
     let rc = match argv[1].as_str() {
+        "c01" => c01::run(&args),
+        "c01w" => c01::worker(&args),
         "c02" => c02::run(&args),
         "c03" => c03::run(&args),
         "c07" => c07::run(&args),
